@@ -82,6 +82,10 @@ def gen_case(rng):
         op = rng.choice(["+", "*", "==", "!=", "=~", "<", "<=", ">", ">=", "<=>", "==="])
         if op == "*":
             tb = "Int"
+    if rng.random() < 0.08:
+        ta = rng.choice(["Int", "Float", "BigFloat", "Int64", "Int8", "UInt8", "Float64"])
+        op = rng.choice(["u-", "u+", "u~"] if not ta.startswith(("F", "B")) else ["u-", "u+"])
+        tb = "Int"
     la = rng.choice(KINDS[ta])
     lb = rng.choice(KINDS[tb])
     if ta == "Float" and rng.random() < 0.1:
@@ -219,7 +223,7 @@ def run(ctx):
         rng = ctx.rng
         cases = []
         seen = set()
-        n = ctx.n(350, 12000)
+        n = ctx.n(220, 3000)
         tries = 0
         while len(cases) < n and tries < n * 20:
             tries += 1
